@@ -692,6 +692,190 @@ class C20(ThreadCheck):
     caps = [2, 3, 4]
 
 
+# =====================================================================================================
+# Zipf generators
+# =====================================================================================================
+import gen_zipf
+import subprocess
+import collections
+
+
+class ZipfCheck(Check):
+    categories = []
+    counts = {'quick': 90, 'thorough': 3000}
+    assumptions = [
+        'IEEE-754 binary64 arithmetic and the C library pow/log as executed on this machine (the Lean Float model calls the same libm)',
+        'theorems are over a linear order / ordered field, not over floating point: rounding facts are validated by bit-for-bit comparison only',
+    ]
+
+    def relevant_functions(self):
+        return []
+
+    def relevant_failure(self, r):
+        if r['mon'].startswith('FAIL'):
+            msg = r['mon'][5:]
+            if any(msg.startswith(c) for c in self.categories):
+                return msg
+            if msg.startswith('crash') and 'crash' in self.categories:
+                return msg
+        return None
+
+    def matches_signature(self, finding, viol):
+        sig = finding.get('signature_substring')
+        return bool(sig) and sig in viol.get('msg', '')
+
+    ref_limit = 400000
+
+    def run_cases(self, exe, g, cases, throws):
+        p1 = '\n'.join(g.pass1(c) for c in cases) + '\n'
+        out = subprocess.run([exe], input=p1, capture_output=True, text=True, timeout=1200).stdout
+        cdfs = collections.defaultdict(dict)
+        cur = None
+        for l in out.splitlines():
+            w = l.split()
+            if not w:
+                continue
+            if w[0] == 'ZCASE':
+                cur = w[1]
+            elif w[0] == 'ZCDF':
+                cdfs[cur][int(w[1])] = int(w[2], 16)
+        texts = {}
+        for c in cases:
+            texts[c['id']] = g.pass2(c, cdfs[c['id']], with_ref=(c['n'] <= self.ref_limit), with_pure=True)
+        for i, t in enumerate(throws):
+            texts[t.split()[1]] = t
+        ids = list(texts)
+        n = max(1, min(common.NCPU, len(ids)))
+        chunks = ['\n'.join(texts[i] for i in ids[k::n]) + '\n' for k in range(n)]
+
+        def one(txt):
+            h = subprocess.run([exe], input=txt, capture_output=True, text=True, timeout=1800)
+            d = subprocess.run([common.DRIVER, 'zipf'], input=h.stdout, capture_output=True, text=True, timeout=1800)
+            if d.returncode != 0:
+                raise FrameworkError('driver failed: ' + d.stderr[-1500:])
+            return d.stdout
+        from concurrent.futures import ThreadPoolExecutor
+        with ThreadPoolExecutor(max_workers=n) as ex:
+            outs = list(ex.map(one, chunks))
+        results, stats = {}, {}
+        for o in outs:
+            for line in o.splitlines():
+                if line.startswith('RES '):
+                    r = common.parse_res(line)
+                    results[r['id']] = r
+                elif line.startswith('STATS '):
+                    stats = common.merge_stats(stats, json.loads(line[6:]))
+        return results, stats, texts
+
+    def dynamic_part(self):
+        try:
+            exe = common.build_harness('zipf')
+        except FrameworkError as e:
+            ok, out = common.repo_builds_normally()
+            if not ok:
+                print('the repository does not compile normally:\n' + out[-1500:])
+                raise SystemExit(2)
+            self.cov.update({'evaluations': 0})
+            return {'failures': [], 'mismatches': [], 'tie_c_problem': 'harness does not compile: ' + str(e)[-1500:]}
+        self.exe = exe
+        rng = random.Random(f'zipf-{self.seed}')
+        self.ref_limit = 250000 if self.tier == 'quick' else 3000000
+        g = gen_zipf.ZipfGen(rng, max_exact_n=60000 if self.tier == 'quick' else 2000000,
+                             max_approx_n=1000000 if self.tier == 'quick' else 20000000)
+        self.g = g
+        cases = []
+        d = os.path.join(VERIF, 'corpus', 'zipf')
+        for fn in sorted(os.listdir(d)) if os.path.isdir(d) else []:
+            if fn.endswith('.json'):
+                cases.append(json.load(open(os.path.join(d, fn))))
+        cases += [g.pick_case(f'z{self.seed}-{i}') for i in range(self.counts[self.tier])]
+        throws = [g.throw_case(f'zt{self.seed}-{i}') for i in range(12)]
+        results, stats, texts = self.run_cases(exe, g, cases, throws)
+        failures, mismatches = [], []
+        ok_count = 0
+        seen = set()
+        for sid in sorted(results):
+            r = results[sid]
+            msg = self.relevant_failure(r)
+            if msg:
+                tag = ' '.join(re.findall(r'\[[^\]]*\]', msg)) or 'untagged'
+                if tag not in seen:
+                    seen.add(tag)
+                    failures.append({'property': self.pid, 'msg': msg, 'case': texts[sid], 'driver_result': r,
+                                     'replay_cmd': f'python3 check/run.py {self.pid} --replay <this file>'})
+            if r['corr'] != 'ok':
+                mismatches.append({'scenario_id': sid, 'detail': r['corr'][:500]})
+            else:
+                ok_count += 1
+        missing = [i for i in texts if i not in results]
+        if missing:
+            mismatches.append({'scenario_id': missing[0], 'detail': f'{len(missing)} cases produced no result'})
+        self.cov.update({
+            'evaluations': len(results),
+            'traces_validated_against_impl': ok_count,
+            'distinct_nontrivial': len({(c['cls'], c['typ'], c['n'], c['alpha'], c['mn']) for c in cases}),
+            'rule': 'cases = (class, integer type, min, max, alpha): bin counts dense around 1, 2, 100, 101, 1000 and powers of ten, '
+                    'alpha on a 0.05 grid in [0,3] plus extremes, bounds negative / at the type limits; per case: GetCDF at boundary '
+                    'bins compared bit for bit with the Lean Float model, scripted engine outputs landing exactly on / one ulp below / '
+                    'one ulp above CDF breakpoints, purity (copy, move, equal parameters, threads), long double reference',
+            'distribution': stats,
+            'mismatching_scenarios': len(mismatches),
+            'exhaustive': False,
+        })
+        self.samples = [texts[i][:600] for i in list(texts)[:2]]
+        self.cov['samples'] = self.samples
+        return {'failures': failures, 'mismatches': mismatches}
+
+    def search(self):
+        exe = getattr(self, 'exe', None)
+        if exe is None:
+            return None
+        for k in range(1, 4):
+            rng = random.Random(f'zipf-search-{self.seed}-{k}')
+            g = gen_zipf.ZipfGen(rng)
+            cases = [g.pick_case(f'zs{k}-{i}') for i in range(300)]
+            results, _, texts = self.run_cases(exe, g, cases, [g.throw_case(f'zst{k}-{i}') for i in range(6)])
+            for sid in sorted(results):
+                msg = self.relevant_failure(results[sid])
+                if msg and not self.finding_matches({'msg': msg}):
+                    return {'property': self.pid, 'msg': msg, 'case': texts[sid], 'driver_result': results[sid]}
+        return None
+
+    def replay(self, path):
+        obj = json.load(open(path))
+        if 'case' not in obj:
+            print(json.dumps(obj, indent=1)[:4000])
+            return 1
+        common.run_extract()
+        ok, out = common.lake_build(['cudrv'])
+        exe = common.build_harness('zipf')
+        h = subprocess.run([exe], input=obj['case'] + '\n', capture_output=True, text=True)
+        d = subprocess.run([common.DRIVER, 'zipf'], input=h.stdout, capture_output=True, text=True)
+        print(h.stdout[-3000:])
+        print(d.stdout)
+        bad = any(self.relevant_failure(common.parse_res(l)) for l in d.stdout.splitlines() if l.startswith('RES '))
+        return 1 if bad else 0
+
+
+class C06(ZipfCheck):
+    lean_module = 'CppUtil.Props.C06'
+    theorems = []
+    categories = ['inverse', 'range', 'crash']
+
+
+class C18(ZipfCheck):
+    lean_module = 'CppUtil.Props.C18'
+    theorems = []
+    categories = ['cdf', 'close']
+
+
+class C19(ZipfCheck):
+    lean_module = 'CppUtil.Props.C19'
+    theorems = []
+    categories = ['pure']
+
+
 PROPS = {
+    'C06': C06, 'C18': C18, 'C19': C19,
     'C01': C01, 'C11': C11, 'C12': C12, 'C04': C04, 'C05': C05, 'C14': C14, 'C15': C15, 'C16': C16, 'C17': C17, 'C20': C20, 'C02': C02, 'C03': C03, 'C07': C07, 'C09': C09, 'C10': C10, 'C13': C13,
 }
